@@ -23,6 +23,7 @@ import numpy as np
 from .. import coqrun
 from ..core import Corr
 from ..coqrun import cz, cnat, clist, cbool, cq
+from ..translate import millgen as millgen_tr
 
 PID = "C13"
 ALLOWED_AXIOMS = {
@@ -31,8 +32,12 @@ ALLOWED_AXIOMS = {
     "FunctionalExtensionality.functional_extensionality_dep",
 }
 TRUSTED = [
-    "hand-written model coq/Model/Mill.v of models/align.py AlignmentMill and util/np_blockwise.py (block shape (3,3)), "
-    "tied by differential execution at K = Q (this file)",
+    "translator harness/translate/millgen.py (Python ast -> let-chains over the array combinators of Model/MillOps.v, fail-closed) "
+    "for the bodies of AlignmentMill.align_coordinates/align_atoms/align_vector/align_gradient/align_hessian and the per-atom block "
+    "of align_vector_gradient; the generated functions are PROVED equal to the hand-written model (C13_translated_*)",
+    "hand-written model coq/Model/Mill.v (AlignmentMill) and coq/Model/Blockwise.v (util/np_blockwise.py, any 2-d block shape), "
+    "tied by differential execution at K = Q (this file); the atom loop of align_vector_gradient and np_blockwise are tied by "
+    "differential execution only",
     "numpy semantics used by the code and transcribed into the model: ndarray.dot, fancy indexing arr[idx] / np.ix_, "
     "in-place column scaling, as_strided with the stated strides, reshape/swapaxes in C order (modelled, not verified)",
     "binary64 arithmetic of the implementation is compared with the exact rational model: exactly on dyadic inputs "
@@ -45,12 +50,13 @@ ASSUMPTIONS = [
     "theorems about covariance assume a well-formed recipe: atommap a permutation of 0..n-1; orthogonality of the "
     "rotation is assumed only where stated (L_orthogonal, inverse recipe, invariant-energy theorems)",
 ]
-EXTRA_TARGETS = ["Model/Mill.vo"]
+EXTRA_TARGETS = ["Model/Mill.vo", "Model/Blockwise.vo"]
 REQ = ["QV.Common.Outcome", "QV.Common.AlignAlg", "QV.Model.Mill"]
+REQB = REQ + ["QV.Model.Blockwise"]
 
 
 def translate(ctx):
-    return None
+    millgen_tr.generate(ctx.repo)
 
 
 # ---------------------------------------------------------------------------------------------
@@ -239,6 +245,67 @@ def build_case(rng, kind, exact):
 
 KINDS = ["coords_f", "coords_r", "grad", "atoms", "vector", "hess", "vecgrad", "expand", "contract"]
 
+
+def build_bcase(rng, k):
+    """blockwise_expand / blockwise_contract on 2-d arrays with ANY block shape (Model/Blockwise.v): aligned and
+    unaligned shapes, require_aligned_blocks on/off (AssertionError when on and the blocks do not divide the shape)"""
+    from qcelemental.util import blockwise_expand, blockwise_contract
+    br, bc = rng.choice([1, 2, 3, 3, 4, 5]), rng.choice([1, 2, 3, 3, 4, 5])
+    if k % 2 == 0:
+        aligned_shape = rng.random() < 0.5
+        if aligned_shape:
+            h, w = br * rng.randint(1, 4), bc * rng.randint(1, 4)
+        else:
+            h, w = rng.randint(1, 13), rng.randint(1, 13)
+        al = rng.random() < 0.5
+        H = [[float(rng.randint(-99, 99)) for _ in range(w)] for _ in range(h)]
+        a = np.array(H)
+        keep = a.copy()
+        try:
+            view = blockwise_expand(a, (br, bc), False, al) if rng.random() < 0.5 else blockwise_expand(a, (br, bc), require_aligned_blocks=al)
+            shape_ok = view.shape == (h // br, w // bc, br, bc)
+            res = ("Ok", [float(t) for t in np.array(view).reshape(-1)]) if shape_ok else ("Err", "shape %s" % (view.shape,))
+        except AssertionError:
+            res = ("Err", "AssertionError")
+        except Exception as e:
+            res = ("Err", type(e).__name__)
+        out = "(Ok %s)" % clist(res[1], fq) if res[0] == "Ok" else "(Err %s)" % ("PyAssertion" if res[1] == "AssertionError" else "PyTypeError")
+        term = "(BExpand %s %s %s %s %s %s %s)" % (cnat(h), cnat(w), cnat(br), cnat(bc), cbool(al), clist([t for r in H for t in r], fq), out)
+        case = {"kind": "bexpand", "shape": [h, w], "block": [br, bc], "require_aligned_blocks": al, "x": H, "impl": res,
+                "input_unchanged": bool(np.array_equal(a, keep))}
+        # the property on the implementation: blocking and un-blocking gives back the covered (top-left) part
+        if res[0] == "Ok" and al and (h % br or w % bc):
+            case["oracle"] = ("blockwise_expand(require_aligned_blocks=True) accepted a shape that the block shape does not divide "
+                              "(rows/columns are silently dropped, un-blocking is no longer lossless)", {"view_shape": list(view.shape)})
+        elif res[0] == "Ok":
+            try:
+                back = blockwise_contract(np.array(view)) if view.size else None
+                want = keep[:(h // br) * br, :(w // bc) * bc]
+                if back is not None and not (back.shape == want.shape and np.array_equal(back, want)):
+                    case["oracle"] = ("blockwise_contract(blockwise_expand(a, (%d, %d))) is not the array it was made from" % (br, bc),
+                                      {"shape_back": list(back.shape), "shape_expected": list(want.shape)})
+            except Exception as e:
+                case["oracle"] = ("blockwise_contract raised %s on a view made by blockwise_expand" % type(e).__name__, {"error": str(e)})
+        elif res[1] == "AssertionError" and not (al and (h % br or w % bc)):
+            case["oracle"] = ("blockwise_expand refused a shape that its block shape divides (or alignment was not required)", {})
+        elif res[1] != "AssertionError":
+            case["oracle"] = ("blockwise_expand raised %s" % res[1], {})
+    else:
+        gr, gc = rng.randint(1, 4), rng.randint(1, 4)
+        B = [float(rng.randint(-99, 99)) for _ in range(gr * gc * br * bc)]
+        case = {"kind": "bcontract", "shape": [gr, gc], "block": [br, bc], "x": B}
+        try:
+            arr = blockwise_contract(np.array(B).reshape(gr, gc, br, bc))
+            out = [float(t) for t in arr.reshape(-1)]
+            if arr.shape != (gr * br, gc * bc):
+                case["oracle"] = ("blockwise_contract of a (%d,%d,%d,%d) array has shape %s, not (%d,%d)" % (gr, gc, br, bc, arr.shape, gr * br, gc * bc), {})
+        except Exception as e:
+            out = []
+            case["oracle"] = ("blockwise_contract raised %s on a well-formed 4-index array" % type(e).__name__, {"error": str(e)})
+        term = "(BContract %s %s %s %s %s %s)" % (cnat(gr), cnat(gc), cnat(br), cnat(bc), clist(B, fq), clist(out, fq))
+        case["impl"] = ("Ok", out) if "oracle" not in case else ("Err", case["oracle"][0])
+    return case, term
+
 # ---------------------------------------------------------------------------------------------
 # the property oracle on the implementation
 
@@ -316,8 +383,15 @@ def total_energy(case, x, c, r0, triples):
     return E, g, H
 
 
-def vector_field(fk, x, w):
-    """mu = sum_{i>j} w_ij f(r_ij) (x_i - x_j), w antisymmetric; f = 1/r^3 or r^2.  Jacobian J[a, 3k+b]."""
+def cross_mat(v):
+    """[v]x : [v]x u = v x u"""
+    return np.array([[0.0, -v[2], v[1]], [v[2], 0.0, -v[0]], [-v[1], v[0], 0.0]])
+
+
+def vector_field(fk, x, w, triples=()):
+    """mu = sum_{i>j} w_ij f(r_ij) (x_i - x_j), w antisymmetric; f = 1/r^3 or r^2; plus, over the listed triples
+    (i,j,k,c), c (x_i - x_j) x (x_j - x_k): translation invariant, covariant under proper rotations, and with
+    per-atom Jacobian blocks that are NOT symmetric (those of the pair terms are).  Jacobian J[a, 3k+b]."""
     n = len(x)
     mu = np.zeros(3)
     J = np.zeros((3, 3 * n))
@@ -333,6 +407,14 @@ def vector_field(fk, x, w):
             blk = w[i, j] * (f1 / r * np.outer(d, d) + f0 * np.eye(3))
             J[:, 3 * i:3 * i + 3] += blk
             J[:, 3 * j:3 * j + 3] -= blk
+    for (i, j, k, c) in triples:
+        i, j, k = int(i), int(j), int(k)
+        a, b = x[i] - x[j], x[j] - x[k]
+        mu += c * np.cross(a, b)
+        da, db = -c * cross_mat(b), c * cross_mat(a)          # d(a x b)/da = -[b]x ; d(a x b)/db = [a]x
+        J[:, 3 * i:3 * i + 3] += da
+        J[:, 3 * j:3 * j + 3] += db - da
+        J[:, 3 * k:3 * k + 3] -= db
     return mu, J
 
 
@@ -363,19 +445,28 @@ def rand_rotation(rng):
                      [2 * (b * d - a * c), 2 * (c * d + a * b), a * a - b * b - c * c + d * d]])
 
 
-def gen_oracle_case(rng, mill=None, n=None):
+def gen_oracle_case(rng, mill=None, n=None, opts=None):
+    """opts = (rotation style, shift zero?, identity map?, mirror) forces one cell of the option product"""
     if mill is None:
         n = n or rng.randint(1, 10)
         style = rng.random()
+        if opts is not None:
+            style = {"random": 0.0, "cube": 0.8, "identity": 0.9}[opts[0]]
         if style < 0.7:
             rot = rand_rotation(rng)
         elif style < 0.85:
             rot = np.array([[float(t) for t in row] for row in quat_to_rot_fr(rng.choice(cube_quaternions()))])
         else:
             rot = np.eye(3)
-        shift = [rng.uniform(-10, 10) for _ in range(3)] if rng.random() < 0.9 else [0.0, 0.0, 0.0]
-        p = rand_perm(rng, n) if rng.random() < 0.9 else list(range(n))
-        mill = {"shift": shift, "rotation": rot.tolist(), "atommap": p, "mirror": rng.random() < 0.5}
+        zero_shift = rng.random() >= 0.9 if opts is None else opts[1]
+        ident_map = rng.random() >= 0.9 if opts is None else opts[2]
+        shift = [0.0, 0.0, 0.0] if zero_shift else [rng.uniform(-10, 10) for _ in range(3)]
+        p = list(range(n)) if ident_map else rand_perm(rng, n)
+        if opts is not None and not ident_map and n >= 3:
+            while sorted(p) == p or [p[k] for k in p] == list(range(n)):      # a map that is not its own inverse
+                p = rand_perm(rng, n)
+        mirror = rng.random() < 0.5 if opts is None else opts[3]
+        mill = {"shift": shift, "rotation": rot.tolist(), "atommap": p, "mirror": mirror}
     n = len(mill["atommap"])
     x = rand_geometry(rng, n)
     sym = lambda a: (a + a.T) / 2
@@ -400,6 +491,68 @@ def close(a, b, rtol=1e-9):
     return bool(np.all(np.abs(a - b) <= rtol * scale))
 
 
+class Bad(Exception):
+    def __init__(self, what, observed=None):
+        self.what, self.observed = what, observed or {}
+
+
+def pure(f, a, what, **kw):
+    """call f on a private copy of the caller's array; the array must come back unchanged (an in-place update of the
+    caller's data makes every later use of it - e.g. aligning it again - wrong)"""
+    arr = np.array(a, copy=True)
+    res = f(arr, **kw)
+    if not np.array_equal(arr, np.asarray(a)):
+        raise Bad(what + " modified the array it was given (aligning the same data again gives another result)",
+                  {"max_abs_change": float(np.max(np.abs(arr - np.asarray(a))))})
+    return res
+
+
+def covariance(m, md, case, x, tag=""):
+    """covariance of energy/gradient/Hessian and of the vector field under the live recipe object m at geometry x"""
+    p = list(md["atommap"])
+    n = len(p)
+    c, r0, w = (np.array(case[k], dtype=float) for k in ("c", "r0", "w"))
+    ix = np.ix_(p, p)
+    y = pure(m.align_coordinates, x, "align_coordinates")
+    if np.asarray(y).shape != (n, 3):
+        raise Bad(tag + "aligned geometry has the wrong shape", {"shape": list(np.asarray(y).shape)})
+    # the recipe is the stated rigid motion, atom by atom
+    S = np.diag([1.0, -1.0 if md["mirror"] else 1.0, 1.0])
+    R = np.array(md["rotation"], dtype=float)
+    for i in range(n):
+        ref = ((S @ x[p[i]]) - np.array(md["shift"])) @ R
+        if not close(y[i], ref):
+            raise Bad(tag + "aligned atom %d is not (mirror, -shift, .rotation) of atom atommap[%d]" % (i, i),
+                      {"got": list(map(float, y[i])), "expected": ref.tolist()})
+    # invariant energy: value, gradient, Hessian at the aligned geometry
+    triples = [tuple(t) for t in case.get("triples", [])]
+    q = [p.index(k) for k in range(n)]          # atom k of x is atom q[k] of the aligned geometry
+    E, g, H = total_energy(case, x, c, r0, triples)
+    E2, g2, H2 = total_energy(case, np.asarray(y, dtype=float), c[ix], r0[ix], [(q[i], q[j], q[k], cc) for (i, j, k, cc) in triples])
+    if not close(E, E2):
+        raise Bad(tag + "energy not invariant under the recipe's rigid motion", {"E": E, "E_aligned": E2})
+    ag = pure(m.align_gradient, g, "align_gradient")
+    if not close(ag, g2):
+        raise Bad(tag + "gradient at aligned geometry != aligned gradient", {"aligned": np.asarray(ag).tolist(), "at_aligned": g2.tolist()})
+    ah = pure(m.align_hessian, H, "align_hessian")
+    if not close(ah, H2):
+        k = int(np.argmax(np.abs(np.asarray(ah) - H2))) if np.asarray(ah).shape == H2.shape else -1
+        raise Bad(tag + "Hessian at aligned geometry != aligned Hessian",
+                  {"worst_flat_index": k, "max_abs_diff": float(np.max(np.abs(np.asarray(ah) - H2))) if k >= 0 else None})
+    # molecule-attached vector and its nuclear derivatives (recipes without mirror)
+    if not md["mirror"]:
+        mu, J = vector_field(case["field"], x, w, triples)
+        mu2, J2 = vector_field(case["field"], np.asarray(y, dtype=float), w[ix], [(q[i], q[j], q[k], cc) for (i, j, k, cc) in triples])
+        av = pure(m.align_vector, mu, "align_vector")
+        if not close(av, mu2):
+            raise Bad(tag + "vector at aligned geometry != aligned vector", {"aligned": np.asarray(av).tolist(), "at_aligned": mu2.tolist()})
+        aj = pure(m.align_vector_gradient, J, "align_vector_gradient")
+        if not close(aj, J2):
+            raise Bad(tag + "vector derivatives at aligned geometry != aligned vector derivatives",
+                      {"max_abs_diff": float(np.max(np.abs(np.asarray(aj) - J2)))})
+    return y, H
+
+
 def oracle(case):
     """Evaluate the property on the implementation for one oracle case. Returns None or (what, observed)."""
     from qcelemental.util import blockwise_expand, blockwise_contract
@@ -408,58 +561,41 @@ def oracle(case):
     p = list(md["atommap"])
     n = len(p)
     x = np.array(case["x"], dtype=float)
-    c, r0, w = (np.array(case[k], dtype=float) for k in ("c", "r0", "w"))
-    ix = np.ix_(p, p)
-    y = m.align_coordinates(x)
-    if np.asarray(y).shape != (n, 3):
-        return "aligned geometry has the wrong shape", {"shape": list(np.asarray(y).shape)}
-    # the recipe is the stated rigid motion, atom by atom
-    S = np.diag([1.0, -1.0 if md["mirror"] else 1.0, 1.0])
     R = np.array(md["rotation"], dtype=float)
-    for i in range(n):
-        ref = ((S @ x[p[i]]) - np.array(md["shift"])) @ R
-        if not close(y[i], ref):
-            return "aligned atom %d is not (mirror, -shift, .rotation) of atom atommap[%d]" % (i, i), {"got": list(map(float, y[i])), "expected": ref.tolist()}
-    # per-atom arrays follow the same map
-    labels = np.array(["A%d" % k for k in range(n)])
-    masses = np.array([1.0 + 0.25 * k for k in range(n)])
-    if list(m.align_atoms(labels)) != [labels[k] for k in p] or list(m.align_atoms(masses)) != [masses[k] for k in p]:
-        return "align_atoms does not permute per-atom arrays by atommap", {"got": [str(s) for s in m.align_atoms(labels)]}
-    sysres = m.align_system(x, masses, labels, np.arange(n), labels)
-    if not (np.array_equal(sysres[0], y) and list(sysres[1]) == [masses[k] for k in p] and list(sysres[2]) == [labels[k] for k in p]
-            and list(sysres[3]) == p and list(sysres[4]) == [labels[k] for k in p]):
-        return "align_system disagrees with align_coordinates/align_atoms", {}
-    # invariant energy: value, gradient, Hessian at the aligned geometry
-    triples = [tuple(t) for t in case.get("triples", [])]
-    q = [p.index(k) for k in range(n)]          # atom k of x is atom q[k] of the aligned geometry
-    E, g, H = total_energy(case, x, c, r0, triples)
-    E2, g2, H2 = total_energy(case, np.asarray(y, dtype=float), c[ix], r0[ix], [(q[i], q[j], q[k], cc) for (i, j, k, cc) in triples])
-    if not close(E, E2):
-        return "energy not invariant under the recipe's rigid motion", {"E": E, "E_aligned": E2}
-    ag = m.align_gradient(g)
-    if not close(ag, g2):
-        return "gradient at aligned geometry != aligned gradient", {"aligned": np.asarray(ag).tolist(), "at_aligned": g2.tolist()}
-    ah = m.align_hessian(H)
-    if not close(ah, H2):
-        k = int(np.argmax(np.abs(np.asarray(ah) - H2))) if np.asarray(ah).shape == H2.shape else -1
-        return "Hessian at aligned geometry != aligned Hessian", {"worst_flat_index": k, "max_abs_diff": float(np.max(np.abs(np.asarray(ah) - H2))) if k >= 0 else None}
-    # blocking round trip (exact: no arithmetic involved)
-    if not np.array_equal(blockwise_contract(blockwise_expand(H, (3, 3), False)), H):
-        return "blockwise_contract(blockwise_expand(H)) != H", {}
-    # inverse recipe: forward of (shift, rotation.T, inverse map, mirror) undoes reverse of the recipe
-    minv = mk_mill({"shift": md["shift"], "rotation": R.T.tolist(), "atommap": q, "mirror": md["mirror"]})
-    back = minv.align_coordinates(m.align_coordinates(x, reverse=True))
-    if not close(back, x):
-        return "forward transform of the inverse recipe does not undo the reverse transform", {"got": np.asarray(back).tolist()}
-    # molecule-attached vector and its nuclear derivatives (recipes without mirror)
-    if not md["mirror"]:
-        mu, J = vector_field(case["field"], x, w)
-        mu2, J2 = vector_field(case["field"], np.asarray(y, dtype=float), w[ix])
-        if not close(m.align_vector(mu), mu2):
-            return "vector at aligned geometry != aligned vector", {"aligned": np.asarray(m.align_vector(mu)).tolist(), "at_aligned": mu2.tolist()}
-        aj = m.align_vector_gradient(J)
-        if not close(aj, J2):
-            return "vector derivatives at aligned geometry != aligned vector derivatives", {"max_abs_diff": float(np.max(np.abs(np.asarray(aj) - J2)))}
+    q = [p.index(k) for k in range(n)]
+    try:
+        y, H = covariance(m, md, case, x)
+        # per-atom arrays follow the same map
+        labels = np.array(["A%d" % k for k in range(n)])
+        masses = np.array([1.0 + 0.25 * k for k in range(n)])
+        if list(m.align_atoms(labels)) != [labels[k] for k in p] or list(m.align_atoms(masses)) != [masses[k] for k in p]:
+            raise Bad("align_atoms does not permute per-atom arrays by atommap", {"got": [str(s) for s in m.align_atoms(labels)]})
+        sysres = m.align_system(x, masses, labels, np.arange(n), labels)
+        if not (np.array_equal(sysres[0], y) and list(sysres[1]) == [masses[k] for k in p] and list(sysres[2]) == [labels[k] for k in p]
+                and list(sysres[3]) == p and list(sysres[4]) == [labels[k] for k in p]):
+            raise Bad("align_system disagrees with align_coordinates/align_atoms")
+        mini = m.align_mini_system(x, labels)
+        if not (np.array_equal(mini[0], y) and list(mini[1]) == [labels[k] for k in p]):
+            raise Bad("align_mini_system disagrees with align_coordinates/align_atoms")
+        # blocking round trip (exact: no arithmetic involved)
+        if not np.array_equal(blockwise_contract(blockwise_expand(H, (3, 3), False)), H):
+            raise Bad("blockwise_contract(blockwise_expand(H)) != H")
+        # inverse recipe: forward of (shift, rotation.T, inverse map, mirror) undoes reverse of the recipe
+        minv = mk_mill({"shift": md["shift"], "rotation": R.T.tolist(), "atommap": q, "mirror": md["mirror"]})
+        back = minv.align_coordinates(pure(m.align_coordinates, x, "align_coordinates(reverse=True)", reverse=True))
+        if not close(back, x):
+            raise Bad("forward transform of the inverse recipe does not undo the reverse transform", {"got": np.asarray(back).tolist()})
+        rsys = m.align_mini_system(x, labels, reverse=True)
+        if not np.array_equal(rsys[0], m.align_coordinates(x, reverse=True)):
+            raise Bad("align_mini_system(reverse=True) disagrees with align_coordinates(reverse=True)")
+        # the same live recipe object applied to a second geometry (uniformly stretched and displaced: other energy,
+        # gradient, Hessian) and then to the first one again: nothing may be left behind by an earlier call
+        covariance(m, md, case, 1.25 * x + 0.375, tag="second geometry through the same recipe object: ")
+        y3 = m.align_coordinates(x)
+        if not np.array_equal(y3, y):
+            raise Bad("aligning the same geometry again through the same recipe object gives another result")
+    except Bad as b:
+        return b.what, b.observed
     return None
 
 
@@ -498,7 +634,13 @@ def correspond(ctx):
     for k in range(n_model):
         kind = KINDS[k % len(KINDS)]
         exact = (k // len(KINDS)) % 2 == 0
-        case, term = build_case(rng, kind, exact)
+        try:
+            case, term = build_case(rng, kind, exact)
+        except Exception as e:      # the implementation raised where a well-formed call must not (ill-formed maps are caught inside)
+            corr.count("model-error-" + kind)
+            corr.failures.append({"stream": "model-" + kind, "case": {"kind": kind, "exact": exact},
+                                  "what": "implementation raised %s while a model case (%s) was built: %s" % (type(e).__name__, kind, e), "observed": {}})
+            continue
         cases.append(case)
         terms.append(term)
         stream = ("exact-" if exact or kind in ("atoms", "expand", "contract") else "rational-") + kind
@@ -509,12 +651,21 @@ def correspond(ctx):
             corr.nontriv({"k": kind, "m": md, "x": case["x"]})
         if md is not None:
             corr.hit("mirror_on" if md["mirror"] else "mirror_off")
-    corr.sample({"stream": "model", "kind": cases[2]["kind"], "mill": cases[2]["mill"], "input": cases[2]["x"], "implementation": cases[2]["impl"]})
+    if len(cases) > 2:
+        corr.sample({"stream": "model", "kind": cases[2]["kind"], "mill": cases[2].get("mill"), "input": cases[2]["x"], "implementation": cases[2]["impl"]})
     ctx.log(f"{len(terms)} model cases through the implementation; running the property oracle")
-    ocases = list(CORPUS_ORACLE) + [gen_oracle_case(rng) for _ in range(n_oracle)]
+    # the full option product (rotation identity/cube/random x shift zero/non-zero x atom map identity/non-involutive x
+    # mirror off/on) at 1, 3 and 6 atoms: a fast path or a branch that handles only some combinations is met
+    product = [gen_oracle_case(rng, n=nn, opts=(rs, zs, im, mi)) for nn in (1, 3, 6) for rs in ("identity", "cube", "random")
+               for zs in (True, False) for im in (True, False) for mi in (False, True)]
+    ocases = list(CORPUS_ORACLE) + product + [gen_oracle_case(rng) for _ in range(n_oracle)]
     for oc in ocases:
         bad = run_oracle(oc)
         corr.count("oracle-" + oc["energy"])
+        omd = oc["mill"]
+        corr.hit("oracle_rot_%s_shift_%s_map_%s" % (
+            "identity" if omd["rotation"] == np.eye(3).tolist() else "general", "zero" if not any(omd["shift"]) else "nonzero",
+            "identity" if omd["atommap"] == sorted(omd["atommap"]) else "permuted"))
         corr.hit("oracle_n%d" % len(oc["mill"]["atommap"]))
         corr.hit("oracle_mirror_on" if oc["mill"]["mirror"] else "oracle_mirror_off")
         corr.nontriv(oc)
@@ -535,6 +686,37 @@ def correspond(ctx):
         bad.sort()
         errors = still
     corr.errors.extend(f"shard {k}: {e}" for k, e in errors)
+    # np_blockwise with any block shape (Model/Blockwise.v)
+    bcases, bterms = [], []
+    for k in range(3000 if ctx.thorough else 300):
+        case, term = build_bcase(rng, k)
+        bcases.append(case)
+        bterms.append(term)
+        corr.count("exact-" + case["kind"])
+        corr.nontriv({"k": case["kind"], "s": case["shape"], "b": case["block"], "x": case["x"]})
+        corr.hit("blockwise_" + (case["impl"][0] if case["impl"][0] == "Ok" else "Err_" + str(case["impl"][1])[:24]))
+        if case["kind"] == "bexpand":
+            corr.hit("blockwise_shape_%s_required_%s" % ("aligned" if case["shape"][0] % case["block"][0] == 0 and case["shape"][1] % case["block"][1] == 0
+                                                         else "unaligned", case["require_aligned_blocks"]))
+            if not case["input_unchanged"]:
+                corr.failures.append({"stream": "oracle-blockwise", "case": {k2: case[k2] for k2 in case if k2 not in ("impl", "oracle")},
+                                      "what": "blockwise_expand modified its input", "observed": {}})
+        if "oracle" in case:
+            corr.failures.append({"stream": "oracle-blockwise", "case": {k2: case[k2] for k2 in case if k2 not in ("impl", "oracle")},
+                                  "what": case["oracle"][0], "observed": case["oracle"][1]})
+    badb, errb = coqrun.eval_bad_indices("C13bw", REQB, "", "check_bcase", bterms, shard=75 if not ctx.thorough else 150, ty="bcase")
+    if errb:
+        still = []
+        for k, e in errb:
+            bad2, err2 = coqrun.eval_bad_indices("C13bwretry", REQB, "", "check_bcase", bterms[k:k + (75 if not ctx.thorough else 150)], shard=15, ty="bcase")
+            badb.extend(k + b for b in bad2)
+            still.extend((k + k2, e2) for k2, e2 in err2)
+        errb = still
+    corr.errors.extend(f"blockwise shard {k}: {e}" for k, e in errb)
+    for b in sorted(badb)[:4]:
+        c = bcases[b]
+        corr.disagreements.append({"stream": "model-" + c["kind"], "case": {k: c[k] for k in c if k != "impl"},
+                                   "impl": c["impl"], "model": "check_bcase = false (Model/Blockwise.v disagrees)"})
     for b in bad[:6]:
         c = cases[b]
         corr.disagreements.append({"stream": "model-" + c["kind"], "case": {k: c[k] for k in c if k != "impl"},
@@ -570,6 +752,30 @@ def search(ctx, corr, reasons):
 
 def replay(ctx, rp):
     case = rp.get("case")
+    if isinstance(case, dict) and case.get("kind") == "bcontract":
+        from qcelemental.util import blockwise_contract
+        (gr, gc), (br, bc) = case["shape"], case["block"]
+        B = np.array(case["x"], dtype=float).reshape(gr, gc, br, bc)
+        try:
+            arr = blockwise_contract(B)
+            want = B.transpose(0, 2, 1, 3).reshape(gr * br, gc * bc)
+            return {"case": case, "observed": {"shape": list(arr.shape)}, "fails": not (arr.shape == want.shape and np.array_equal(arr, want))}
+        except Exception as e:
+            return {"case": case, "observed": "%s: %s" % (type(e).__name__, e), "fails": True}
+    if isinstance(case, dict) and case.get("kind") == "bexpand":
+        from qcelemental.util import blockwise_expand, blockwise_contract
+        a = np.array(case["x"], dtype=float)
+        (h, w), (br, bc) = case["shape"], case["block"]
+        try:
+            view = blockwise_expand(a.copy(), (br, bc), False, case["require_aligned_blocks"])
+            back = blockwise_contract(np.array(view))
+            want = a[:(h // br) * br, :(w // bc) * bc]
+            fails = not (back.shape == want.shape and np.array_equal(back, want)) or bool(case["require_aligned_blocks"] and (h % br or w % bc))
+            return {"case": case, "observed": {"shape_back": list(back.shape)}, "fails": bool(fails)}
+        except AssertionError:
+            return {"case": case, "observed": "AssertionError", "fails": not (case["require_aligned_blocks"] and (h % br or w % bc))}
+        except Exception as e:
+            return {"case": case, "observed": "%s: %s" % (type(e).__name__, e), "fails": True}
     if not isinstance(case, dict) or "mill" not in case or "c" not in case:
         return {"note": "this replay records broken proof obligations / a model disagreement without a failing input of the "
                         "property; re-run ./check C13", "fails": True}
@@ -579,8 +785,9 @@ def replay(ctx, rp):
 
 KNOWN = {}
 
-TECHNIQUE = ("Coq proofs over a hand-written Gallina model parametrised by a commutative ring (ring, induction, div/mod index "
-             "lemmas; a Coquelicot derivative argument for the invariant-energy link) + differential correspondence at K = Q")
+TECHNIQUE = ("Coq proofs over a Gallina model parametrised by a commutative ring (ring, induction, div/mod index lemmas; a Coquelicot "
+             "derivative argument for the invariant-energy link) + fail-closed translator of the method bodies with proved "
+             "generated = model + differential correspondence at K = Q")
 DESIGN_REF = "DESIGN.md §6 C13"
 LEVEL_TEXT = (
     "Machine-checked (Coq 8.16.1) theorems about Model/Mill.v, for every commutative ring K (Leibniz equality), every recipe, "
@@ -589,21 +796,39 @@ LEVEL_TEXT = (
     "blockwise_contract, with the same L as the gradient, mirror on or off), C13_L_orthogonal (orthogonal rotation + permutation "
     "map => L L^T = I), C13_atoms_same_map, C13_line_transport (T(x+sv) = Tx + s Lv), C13_reverse_inverts_forward (inverse recipe), "
     "C13_vector_is_rotT, C13_vector_gradient_covariant (J -> rot^T J L^T, no mirror), C13_blockwise_lossless (every tile count, "
-    "rectangular too), C13_wellformed_total; and over the reals (Coquelicot is_derive) the physics link "
+    "rectangular too), C13_wellformed_total; for the public blockwise_expand/blockwise_contract with ANY 2-d block shape (Model/Blockwise.v): "
+    "C13_blockwise_lossless_any_blockshape, C13_blockwise_unaligned_keeps_topleft (require_aligned_blocks=False keeps exactly the "
+    "top-left part), C13_blockwise_misaligned_refused (AssertionError iff alignment required and shape not divisible), "
+    "C13_blockwise_33_is_mill; and over the reals (Coquelicot is_derive) the physics link "
     "C13_invariant_energy_gradient_covariant / C13_invariant_energy_hessian_covariant: for ANY energy E' o T = E and any grad/hess "
     "characterised by directional derivatives, grad'(Tx) = align_gradient(grad x) and hess'(Tx) = align_hessian(hess x); "
     "C13_covariant_vector_jacobian: for ANY vector field with mu' o T = align_vector o mu (no mirror) the Jacobian at the aligned "
     "geometry is align_vector_gradient of the original Jacobian. "
-    "The model is tied to models/align.py and util/np_blockwise.py on every run by differential execution at K = Q (exact on "
-    "dyadic data with the 24 cube-group rotations, 1e-10 on integer-quaternion rotations; index-error behaviour included) and the "
+    "Tie: the bodies of align_coordinates/align_atoms/align_vector/align_gradient/align_hessian and the per-atom block of "
+    "align_vector_gradient are translated from models/align.py on every run (Gen/MillGen.v) and PROVED equal to the model for all "
+    "inputs (C13_translated_coordinates_is_model, _gradient_, _hessian_, _atoms_vector_datom_); the whole model (incl. np_blockwise "
+    "with any block shape and the IndexError/AssertionError behaviour) is also run against the implementation at K = Q (exact on "
+    "dyadic data with the 24 cube-group rotations, 1e-10 on integer-quaternion rotations) and the "
     "property itself is evaluated on the implementation with analytic Coulomb/harmonic pair + three-body energies and a "
-    "covariant vector field with closed-form derivatives, mirror on/off, permutations of 1-10 atoms.")
+    "covariant vector field with closed-form derivatives, mirror on/off, permutations of 1-10 atoms, the full option product "
+    "(identity/general rotation x zero/non-zero shift x identity/non-involutive map x mirror), a second geometry through the same "
+    "live recipe object, and a check that no method modifies the array it is given.")
 LEVEL_NOTE = (
-    "Trusted: Coq kernel + vm_compute; the hand-written model (block shape (3,3) only; non-negative atommap entries; numpy "
-    "dot/fancy-indexing/as_strided/reshape/swapaxes semantics transcribed, not verified); binary64 rounding of the implementation is "
+    "Clause map: invariant-energy gradient/Hessian covariance -> C13_invariant_energy_gradient_covariant/_hessian_covariant (+ "
+    "coords_affine, gradient_is_L, hessian_is_LHLt, L_orthogonal, line_transport); per-atom arrays -> C13_atoms_same_map; vectors "
+    "and their derivatives without mirror -> C13_vector_is_rotT, C13_vector_gradient_covariant, C13_covariant_vector_jacobian; "
+    "lossless 3x3 blocking -> C13_blockwise_lossless (+ the four any-block-shape theorems); forward/reverse -> "
+    "C13_reverse_inverts_forward; errors -> C13_wellformed_total; model = code -> C13_translated_* (generated from the source). Only "
+    "correspondence/oracle: the atom loop around the per-atom block of align_vector_gradient, np_blockwise, align_system/"
+    "align_mini_system. No clause without a theorem. "
+    "Trusted: Coq kernel + vm_compute; the translator harness/translate/millgen.py and the array combinators of Model/MillOps.v "
+    "(numpy dot/broadcast/fancy-indexing/as_strided/reshape/swapaxes semantics transcribed, not verified); non-negative atommap "
+    "entries; 2-d arrays for np_blockwise; binary64 rounding of the implementation is "
     "outside the model (exact rationals; compared exactly on dyadic inputs and within 1e-10 otherwise); the closed-form "
     "derivatives of the oracle's test energies; harness/props/c13.py. Axioms: the algebraic theorems are closed under the global "
     "context; the three calculus theorems (invariant-energy gradient/Hessian, vector Jacobian) depend on the standard Reals axioms (ClassicalDedekindReals.sig_forall_dec, "
-    "sig_not_dec, FunctionalExtensionality.functional_extensionality_dep) and nothing else. No theorem is _partial or _refuted "
+    "sig_not_dec, FunctionalExtensionality.functional_extensionality_dep) and nothing else. No theorem is _partial; "
+    "C13_vector_rotates_with_frame_under_mirror_refuted shows that the 'without mirror' restriction of the vector clauses cannot be "
+    "dropped (align_vector ignores the mirror flag; the property excludes that case, so this is not a defect) "
     "(the former finding C13-hessian-mirror was fixed in /repo by 88ca1d6; Example C13_ex_hessian_mirror_matters shows the mirror now "
     "changes the aligned Hessian).")
